@@ -553,6 +553,10 @@ func timerEdge(c *vkit.Case) {
 	var got []int
 	var err error
 	arrivedDuring := false
+	// sawFull: the second item had reached full() when the consumer arrived. If the machine is so
+	// loaded that the consumer's 50 ms patience ran out first, the batch it finds is [1] alone, older
+	// than maxWait, and handing that out at once is correct.
+	sawFull := false
 	done := make(chan struct{})
 	go func() {
 		defer close(done)
@@ -561,6 +565,7 @@ func timerEdge(c *vkit.Case) {
 		}
 		vkit.SpinFor(100 * time.Microsecond)
 		arrivedDuring = inFull.Load() == 1
+		sawFull = inFull.Load() >= 1
 		got, err = s.Next(context.Background())
 		s.Close()
 	}()
@@ -578,6 +583,10 @@ func timerEdge(c *vkit.Case) {
 	}
 	if arrivedDuring {
 		r.Count("timer-edge", "waiter arrived during full()", 1)
+	}
+	if !sawFull && err == nil && len(got) == 1 && got[0] == 1 {
+		r.Count("timer-edge", "consumer arrived before the second item (load): [1] alone, not judged", 1)
+		return
 	}
 	if err != nil || len(got) != 2 || got[0] != 1 || got[1] != 2 {
 		c.Violation("timer-edge-batch", fmt.Sprintf("timer-edge: Next returned (%v, %v), want ([1 2], nil)", got, err), nil)
